@@ -61,12 +61,31 @@ static void verdicts(const std::string& cmodel, const std::string& mmodel)
     vf_reach("end");
 }
 
-extern "C" void harness_global_const()  /* vf: bounds=11_access_paths(incl._a_const_member_array_inside_a_mutable_struct)_into_const_globals(scalar,array_element,struct_field,nested,typedef_const,anonymous_const_struct)_x_16_write_forms_x_placement(edge_update,function_body) */
+extern "C" void harness_global_const()  /* vf: bounds=11_access_paths(incl._a_const_member_array_inside_a_mutable_struct)_into_const_globals(scalar,array_element,struct_field,nested,typedef_const,anonymous_const_struct)_x_16_write_forms_x_11_placements(edge_update,statement,for_initialiser/condition/step,if/while/do_condition,returned_value,nested_blocks) */
 {
-    int src = vf_pick("!source", NGLV), w = vf_pick("!write", NWF), infun = vf_pick("!in_function", 2);
+    // placement: 0 edge update, 1 statement of a function body, then every other place of a function body where an expression is evaluated
+    int src = vf_pick("!source", NGLV), w = vf_pick("!write", NWF), place = vf_pick("!in_function", 11);
+    bool valued = w != 13 && w != 14;   // the write as an int-valued operand (not the comma list / for-initialiser form, not the void call)
+#ifndef VF_TIER_THOROUGH
+    vf_assume(place <= 1 || src == 0 || src == 1 || src == 3 || src == 9);   // quick: the further placements with four of the access paths
+#endif
+    vf_assume(place <= 3 || ((place == 9 || place == 10) && w != 13) || valued);   // a comma list is no statement of its own
     auto mk = [&](const char* L) {
-        std::string W = wform(w, L);
-        return infun ? wrap("void w() { " + W + "; }\n", "w()") : wrap("", wform(w, L, false));
+        std::string W = wform(w, L), V = "(" + wform(w, L, false) + ")";
+        if (w == 13 && place >= 2) W = wform(w, L, false);
+        switch (place) {
+        case 0: return wrap("", wform(w, L, false));
+        case 1: return wrap("void w() { " + W + "; }\n", "w()");
+        case 2: return wrap("void w() { for (mj = 0; mj < 2; " + W + ") { mj++; } }\n", "w()");            // step clause of a loop
+        case 3: return wrap("void w() { for (" + W + "; mj < 2; mj++) { } }\n", "w()");                     // initialiser clause
+        case 4: return wrap("void w() { if (" + V + " > 0) { mj = 1; } }\n", "w()");                        // conditions
+        case 5: return wrap("void w() { while (" + V + " > 5) { mj = 1; } }\n", "w()");
+        case 6: return wrap("void w() { do { mj = 1; } while (" + V + " > 5); }\n", "w()");
+        case 7: return wrap("int w() { return " + V + "; }\n", "mj = w()");                                  // returned value
+        case 8: return wrap("void w() { for (mj = 0; " + V + " > 5; mj++) { } }\n", "w()");                 // loop condition
+        case 9: return wrap("void w() { for (k : int[0,1]) { if (k > 0) { " + W + "; } else mj = 2; } }\n", "w()");   // nested blocks
+        default: return wrap("void w() { { { " + W + "; } } }\n", "w()");
+        }
     };
     verdicts(mk(GLV[src][0]), mk(GLV[src][1]));
 }
@@ -81,7 +100,7 @@ extern "C" void harness_whole_object()  /* vf: bounds=assignment_of_whole_const_
     verdicts(wrap(d, CASES[k][0]), wrap(d, CASES[k][1]));
 }
 
-extern "C" void harness_template_ref_argument()  /* vf: bounds=const_object_bound_to_non-const_reference_parameter_of_a_template;11_access_paths(incl._a_const_member_array_inside_a_mutable_struct)+whole_array/struct */
+extern "C" void harness_template_ref_argument()  /* vf: bounds=const_object_bound_to_non-const_reference_parameter_of_a_template;11_access_paths(incl._a_const_member_array_inside_a_mutable_struct)+whole_array/struct_x_3_routes(direct,partial_instantiation,chain_of_two) */
 {
     int src = vf_pick("!source", NGLV + 2);
     const char* cl; const char* ml; const char* ptype;
@@ -90,7 +109,14 @@ extern "C" void harness_template_ref_argument()  /* vf: bounds=const_object_boun
     else { cl = "cs"; ml = "ms"; ptype = "S& r"; }
     if (src == 10) { cl = "cfg.lim[1]"; ml = "mcfg.lim[1]"; }
     if (src == 5 || src == 8) { cl = src == 5 ? "csa[0].a[1]" : "ca[2]"; ml = src == 5 ? "msa[0].a[1]" : "ma[2]"; }  // instantiation arguments must be compile-time computable
-    auto mk = [&](const char* L) { return wrap("", "", ptype, std::string("P0 = P(") + L + "); system P0;"); };
+    // route to the system line: bound directly, through a partial instantiation (the constant in a trailing argument position), through a chain of two
+    int route = vf_pick("!route", 3);
+    std::string pt = std::string("const int[0,1] id, ") + ptype, xtype = ptype; xtype.replace(xtype.find('r'), 1, "x");
+    auto mk = [&](const char* L) {
+        if (route == 0) return wrap("", "", ptype, std::string("P0 = P(") + L + "); system P0;");
+        if (route == 1) return wrap("", "", pt, std::string("Q(const int[0,1] i) = P(i, ") + L + "); system Q;");
+        return wrap("", "", pt, "Q(const int[0,1] i, " + xtype + ") = P(i, x); R(const int[0,1] j) = Q(j, " + L + "); system R;");
+    };
     verdicts(mk(cl), mk(ml));
 }
 
